@@ -116,6 +116,62 @@ theorem stored_stream_fits (x : List Nat) (cap : Nat) (hn : x.length < 2 ^ 54)
 example : makeUncompressedStream [1, 2, 3] 3 (maxCompressedSize 3) = ok [0x21, 0x03, 0x10, 0x00, 0x08, 1, 2, 3, 0x03] :=
   stored_example
 
+
+/-- `stored_stream_decodes`: for every non-empty byte string `x` (any length below
+2^54), the stored stream read by the RFC readers is: window 10 (7-bit form), an
+empty metadata meta-block, then one *uncompressed* meta-block per chunk, then
+the empty last meta-block; the chunks concatenate to exactly `x`, every chunk
+but the last is 2^24 bytes long, every chunk has 1‥2^24 bytes (so 4, 5 or 6
+length nibbles are what the reader accepted).  No entropy-coded block occurs:
+the framing alone yields the input. -/
+theorem stored_stream_decodes (x : List Nat) (cap : Nat) (hx : ∀ b ∈ x, b < 256)
+    (hn : x.length < 2 ^ 54) (h0 : 0 < x.length) (hcap : maxCompressedSize x.length ≤ cap) :
+    ∃ out r chunks, makeUncompressedStream x x.length cap = ok out ∧
+      readWbits (out.flatMap (bitsOf 8)) = some (10, false, r) ∧
+      decodeFraming (chunks.length + 2) 7 r
+        = some (MetaBlock.metadata [] :: (chunks.map MetaBlock.raw ++ [MetaBlock.lastEmpty])) ∧
+      chunks.flatten = x ∧ FullButLast chunks ∧
+      ∀ c ∈ chunks, 1 ≤ c.length ∧ c.length ≤ 2 ^ 24 := by
+  have hspec := chunksOf_spec x hx
+  refine ⟨_, false :: (bitsOf 8 3 ++ (bodyBytes (chunksOf x) ++ [3]).flatMap (bitsOf 8)), chunksOf x,
+    mus_content x cap hn h0 hcap, ?_, ?_, chunksOf_flatten x, chunksOf_full x,
+    fun c hc => ⟨(hspec c hc).1, (hspec c hc).2.1⟩⟩
+  · rw [List.append_assoc, List.flatMap_append]
+    exact (read_preamble _).1
+  · rw [decodeFraming_metadata _ _ _ _ _ _ (read_preamble _).2,
+      decodeFraming_body (chunksOf x) 16 ((chunksOf x).length + 1) (by decide) (by omega) hspec]
+    rfl
+
+/-- the empty input: the one-byte stream `06` = window 16, empty last meta-block -/
+theorem stored_stream_empty (cap : Nat) (hcap : 1 ≤ cap) :
+    makeUncompressedStream [] 0 cap = ok [6] ∧
+    ∃ r, readWbits (([6] : List Nat).flatMap (bitsOf 8)) = some (16, false, r) ∧
+      decodeFraming 1 1 r = some [MetaBlock.lastEmpty] := by
+  refine ⟨?_, _, rfl, by decide⟩
+  simp only [makeUncompressedStream, lit, litsMus, BV.Gen.lits_MakeUncompressedStream, List.getD_cons_zero,
+    List.getD_cons_succ, if_true]
+  rw [push_ok _ _ _ (by simp; omega)]
+  rfl
+
+/-- non-vacuity: a 3-byte input -/
+example : ∃ out r, makeUncompressedStream [1, 2, 3] 3 25 = ok out ∧
+    readWbits (out.flatMap (bitsOf 8)) = some (10, false, r) ∧
+    decodeFraming 3 7 r = some [MetaBlock.metadata [], MetaBlock.raw [1, 2, 3], MetaBlock.lastEmpty] := by
+  obtain ⟨out, r, chunks, h1, h2, h3, h4, h5, h6⟩ :=
+    stored_stream_decodes [1, 2, 3] 25 (by decide) (by decide) (by decide) (by decide)
+  have hc : chunks = [[1, 2, 3]] := by
+    match chunks, h4, h5, h6 with
+    | [c], h4, _, _ => simp at h4; rw [h4]
+    | [], h4, _, _ => simp at h4
+    | c :: d :: rest, h4, h5, _ =>
+      exfalso
+      have l1 : c.length = 2 ^ 24 := h5.1
+      have := congrArg List.length h4
+      simp at this
+      omega
+  subst hc
+  exact ⟨out, r, h1, h2, h3⟩
+
 /-! ## the one-shot call -/
 
 /-- `oneshot_contract`: `encoder_compress` on an input of `n = |x|` bytes with
